@@ -355,14 +355,40 @@ def run(ctx) -> None:
     app = apps[0]
     r4.instance(f"{ex.short}: {norm1(app)}")
     j = app.args[0]
-    # guards on the path to the append: some `if <...>: continue` whose test implies both-old pairs are skipped
-    loopj = enclosing(epm, app, ast.For)
-    guards = [s for s in ast.walk(loopj) if isinstance(s, ast.If) and len(s.body) == 1 and isinstance(s.body[0], ast.Continue)]
-    gt = [norm(g.test).replace(" ", "") for g in guards if ecfg.dominates(ecfg.node(g), ecfg.node(enclosing(epm, app, ast.stmt)))]
+    # path conditions at the append: the pair is ordered (i < j) and not both indices are old (< n − new_points)
+    from ..sem import Sem
+    ES = Sem(idx, ex)
+    ast_stmt = enclosing(epm, app, ast.stmt)
+    conds = ES.conditions(ast_stmt, resolve=False)
+    gt = [f"{'' if p_ else 'not '}({t_})" for t_, p_, _ in conds]
     jn = norm(j)
-    old_guard = any(("<n-new_points" in t and t.count("n-new_points") == 2 and "and" in t) or
-                    (f"{jn}<n-new_points" in t and "and" not in t) for t in gt)
-    order_guard = any(t in (f"i>={jn}", f"{jn}<=i") for t in gt)
+    absb0 = method_calls(ex.node, "absorb")
+    iv = norm(absb0[0].func.value.slice) if absb0 and isinstance(absb0[0].func.value, ast.Subscript) else "i"
+    kl_par = ex.params[0]
+    npar = ex.params[1] if len(ex.params) > 1 else "new_points"
+
+    def is_old_threshold(e: ast.AST) -> bool:
+        txts = {norm(e)}
+        try:
+            for alt in ES.alternatives(e, ecfg.node(ast_stmt)):
+                txts.add(norm(alt))
+        except Exception:
+            pass
+        ok_forms = (f"n - {npar}", f"len({kl_par}) - {npar}", f"0 if {npar} is None else n - {npar}", f"0 if {npar} is None else len({kl_par}) - {npar}",
+                    f"len({kl_par}) - len({kl_par})", "n - n")
+        return any(t_ in ok_forms for t_ in txts)
+    old_guard = False
+    for t_, p_, _ in conds:
+        if p_:
+            continue
+        e_ = ast.parse(t_, mode="eval").body
+        if isinstance(e_, ast.Compare) and len(e_.ops) == 1 and isinstance(e_.ops[0], ast.Lt) and norm(e_.left) == jn and is_old_threshold(e_.comparators[0]):
+            old_guard = True
+        if isinstance(e_, ast.BoolOp) and isinstance(e_.op, ast.And) and len(e_.values) == 2 and all(
+                isinstance(v, ast.Compare) and len(v.ops) == 1 and isinstance(v.ops[0], ast.Lt) and is_old_threshold(v.comparators[0]) for v in e_.values) \
+                and {norm(v.left) for v in e_.values} == {iv, jn}:
+            old_guard = True
+    order_guard = any((t_ in (f"{iv} >= {jn}", f"{jn} <= {iv}") and p_ is False) or (t_ in (f"{iv} < {jn}", f"{jn} > {iv}") and p_ is True) for t_, p_, _ in conds)
     r4.check(old_guard and order_guard, "only a new point (index ≥ n − new_points, larger than its partner) is deleted",
              ex, enclosing(epm, app, ast.stmt),
              f"a K-point that may already be in the append-only K-list file can be deleted (guards on the path: {gt}); "
